@@ -50,6 +50,35 @@ class Plain:
     """Subdomain data without ufl_id: compared by id(); default object repr (with address)."""
 
 
+COLLIDING_HASH = 0x5EED5EED
+
+
+class HC(ufl.Coefficient):
+    """A user subclass of Coefficient (as dolfinx/firedrake have) with a legal but useless hash: all HC collide.
+
+    == is inherited, so HC objects with different counts are unequal although their hashes are equal.  This is
+    the only way to reach the branches of expr_equals behind its hash cut-off with unequal operands.
+    """
+
+    def __init__(self, function_space, count=None):
+        ufl.Coefficient.__init__(self, function_space, count)
+        self._repr = f"HC({self._ufl_function_space!r}, {self._count!r})"
+
+    def _ufl_compute_hash_(self):
+        return COLLIDING_HASH
+
+
+class HK(ufl.Constant):
+    """A user subclass of Constant whose hash collides with every HC (different typecode, same hash)."""
+
+    def __init__(self, domain, shape=(), count=None):
+        ufl.Constant.__init__(self, domain, shape, count)
+        self._repr = f"HK({self._ufl_domain!r}, {self._ufl_shape!r}, {self._count!r})"
+
+    def _ufl_compute_hash_(self):
+        return COLLIDING_HASH
+
+
 def namespace():
     ns = dict(C.__dict__)
     ns["ufl"] = ufl
@@ -60,6 +89,8 @@ def namespace():
             ns.setdefault(k, getattr(E, k))
     ns["EL"] = EL
     ns["SD"] = SD
+    ns["HC"] = HC
+    ns["HK"] = HK
     return ns
 
 
@@ -96,7 +127,24 @@ OPS_T = [
     "SpatialCoordinate(m2)",
     "FacetNormal(m1)",
     "CellVolume(m1)",
+    "HC(S1,#13)",
+    "HC(S1,#14)",
+    "HK(m1,(),#13)",
 ]
+# operators that carry data besides their operands (derivative multi-index, function space / argument slots);
+# used as atoms: level 1 applies every unary operator to them and every binary operator with f / c
+BFO_T = [
+    "ExternalOperator(f;S1;d=(0,))",
+    "ExternalOperator(f;S1;d=(1,))",
+    "ExternalOperator(f;S2;d=(0,))",
+    "ExternalOperator(f;S1;d=(1,);slots=(v*,u1))",
+    "Interpolate(f,S1)",
+    "Interpolate(f,S2)",
+    "Coefficient(S1L,#3)",  # function space label: not an operator, but treated with the same comb
+]
+BFO_PARTNERS = ["Coefficient(S1,#3)", "Constant(m1,(),#3)"]
+# terminals whose hashes collide although they are unequal (see class HC)
+COLLIDE_T = ["HC(S1,#13)", "HC(S1,#14)", "HK(m1,(),#13)"]
 # the smaller set used as second operand in the comb levels
 COMB_T = [
     "Coefficient(S1,#3)",
@@ -136,6 +184,7 @@ def terminals():
         "V1": ufl.FunctionSpace(m1, EL("P", "triangle", 1, (2,))),  # value shape
         "T1": ufl.FunctionSpace(m1, EL("P", "triangle", 1, (2, 2))),
         "Sstock": ufl.FunctionSpace(mstock, E.P("triangle", 2)),
+        "S1L": ufl.FunctionSpace(m1, EL("P", "triangle", 1, ()), label="bnd"),  # differs from S1 in the label only
     }
     t = {}
     for s, n in [
@@ -149,6 +198,7 @@ def terminals():
         ("V1", 5),
         ("T1", 7),
         ("Sstock", 3),
+        ("S1L", 3),
     ]:
         t[f"Coefficient({s},#{n})"] = C.Coefficient(sp[s], count=n)
     for d, sh, n in [
@@ -172,8 +222,28 @@ def terminals():
         ("S1m2", 0, None),
         ("V1", 0, None),
         ("Sstock", 0, None),
+        ("S1L", 0, None),
     ]:
         t[f"Argument({s},{num},{part})"] = C.Argument(sp[s], num, part)
+    # user subclasses with colliding hashes; their counts are used by no other Coefficient/Constant
+    t["HC(S1,#13)"] = HC(sp["S1"], 13)
+    t["HC(S1,#14)"] = HC(sp["S1"], 14)
+    t["HC(V1,#15)"] = HC(sp["V1"], 15)
+    t["HK(m1,(),#13)"] = HK(m1, (), 13)
+    t["HK(m1,(),#14)"] = HK(m1, (), 14)
+    # base form operators over f = Coefficient(S1,#3): one datum varied at a time
+    f3 = t["Coefficient(S1,#3)"]
+    t["ExternalOperator(f;S1;d=(0,))"] = C.ExternalOperator(f3, function_space=sp["S1"])
+    t["ExternalOperator(f;S1;d=(1,))"] = C.ExternalOperator(f3, function_space=sp["S1"], derivatives=(1,))
+    t["ExternalOperator(f;S2;d=(0,))"] = C.ExternalOperator(f3, function_space=sp["S2"])
+    t["ExternalOperator(f;S1;d=(1,);slots=(v*,u1))"] = C.ExternalOperator(
+        f3,
+        function_space=sp["S1"],
+        derivatives=(1,),
+        argument_slots=(C.Coargument(sp["S1"].dual(), 0), C.Argument(sp["S1"], 1)),
+    )  # one more argument slot than ExternalOperator(f;S1;d=(1,))
+    t["Interpolate(f,S1)"] = C.Interpolate(f3, sp["S1"])
+    t["Interpolate(f,S2)"] = C.Interpolate(f3, sp["S2"])
     # literals (ComplexValue(2+0j) is turned into a FloatValue by the constructor; that is the datum tested)
     for v in [1, 2, -1, 100, 101]:
         t[f"IntValue({v})"] = C.IntValue(v)
